@@ -3,6 +3,7 @@ import M3d.Model.MarchingMesh
 import M3d.Model.Bisect
 import M3d.Model.DualContour
 import M3d.Model.MarchingFilter
+import M3d.Model.MarchingGlue
 import M3d.Gen.McTable
 /-! Line-protocol handler for C02. Core-only. -/
 namespace M3d.Drv.C02
@@ -14,6 +15,7 @@ inductive Csg where
   | box (p : Array Rat)
   | ball (p : Array Rat)
   | half (p : Array Rat)
+  | plane (p : Array Rat)
   | vox (p : Array Rat) (nx ny nz : Nat) (bits : Array Bool)
   | or (a b : Csg)
   | and (a b : Csg)
@@ -32,6 +34,7 @@ partial def parseCsg (ws : List String) : Option (Csg × List String) :=
   | "box" :: r => do let (p, r) ← takeRats 6 r; some (.box p, r)
   | "ball" :: r => do let (p, r) ← takeRats 4 r; some (.ball p, r)
   | "half" :: r => do let (p, r) ← takeRats 3 r; some (.half p, r)
+  | "plane" :: r => do let (p, r) ← takeRats 4 r; some (.plane p, r)
   | "vox" :: r => do
       let (p, r) ← takeRats 4 r
       match r with
@@ -52,6 +55,7 @@ def contains : Csg → Rat → Rat → Rat → Bool
   | .half p, x, y, z =>
     let c := if p[0]! == 0 then x else if p[0]! == 1 then y else z
     if p[1]! > 0 then decide (c ≤ p[2]!) else decide (p[2]! ≤ c)
+  | .plane p, x, y, z => decide (p[0]! * x + p[1]! * y + p[2]! * z ≤ p[3]!)
   | .vox p nx ny nz bits, x, y, z =>
     let ix := ((x - p[0]!) / p[3]! + 1 / 2).floor
     let iy := ((y - p[1]!) / p[3]! + 1 / 2).floor
@@ -205,6 +209,27 @@ def handleBis (ws : List String) : Option String := do
     -- the property: the reported interior point is contained
     some (hex3 (Bisect.bisectInterior C p1 p2 count) ++ " in=1")
 
+/-- `bis2 …`: the 2-D twin (`model2d.SolidSurfaceEstimator`, same template): the same model with the
+third coordinate 0 (every operation is per coordinate). -/
+def handleBis2 (ws : List String) : Option String := do
+  let which ← ws[0]?
+  let count ← (← ws[1]?).toNat?
+  let axis ← (← ws[2]?).toNat?
+  let up ← (← ws[3]?).toNat?
+  let fs ← parseFloats (ws.drop 4)
+  let [thr, a, b, d, e] := fs | none
+  let p1 : Bisect.V3 Float := ⟨a, b, 0⟩
+  let p2 : Bisect.V3 Float := ⟨d, e, 0⟩
+  let C := fun (p : Bisect.V3 Float) =>
+    let v := if axis == 0 then p.x else p.y
+    if up == 1 then v >= thr else v <= thr
+  if which == "bisect" then
+    let r := Bisect.bisectPoint C p1 p2 count
+    some s!"{hexOfFloat r.x} {hexOfFloat r.y}"
+  else
+    let r := Bisect.bisectInterior C p1 p2 count
+    some s!"{hexOfFloat r.x} {hexOfFloat r.y} in=1"
+
 /-! ### dual contouring -/
 
 open M3d.DC in
@@ -269,6 +294,222 @@ def handleDc (repair : Bool) (ws : List String) : Option String := do
   if repair then some s!"cross={lst crossStrs} interior={interior}"
   else some s!"quads={lst quadStrs} incell=1 cross={lst crossStrs} interior={interior}"
 
+
+/-- consecutive duplicates removed (the edge lists are generated in lattice order) -/
+def dedupPairs : List (Nat × Nat) → List (Nat × Nat)
+  | a :: b :: r => if a == b then dedupPairs (b :: r) else a :: dedupPairs (b :: r)
+  | l => l
+
+def dedupTriples : List (Nat × Nat × Nat) → List (Nat × Nat × Nat)
+  | a :: b :: r => if a == b then dedupTriples (b :: r) else a :: dedupTriples (b :: r)
+  | l => l
+
+/-! ### the wrappers: `MarchingCubesConj` / `MarchingSquaresConj`, `MarchingSquaresC2F` / `MarchingCubesC2F` -/
+
+open M3d.Tf in
+/-- `n` transforms `T dx dy dz | S s | V sx sy sz | M a0 … a8` (row-major, as `Matrix3`) -/
+def parseXfs3 : Nat → List String → Option (List (Xf Rat) × List String)
+  | 0, ws => some ([], ws)
+  | n + 1, ws => do
+    let (x, r) ← (match ws with
+      | "T" :: r => do let (p, r) ← takeRats 3 r; some (Xf.translate ⟨p[0]!, p[1]!, p[2]!⟩, r)
+      | "S" :: r => do let (p, r) ← takeRats 1 r; some (Xf.scale p[0]!, r)
+      | "V" :: r => do let (p, r) ← takeRats 3 r; some (Xf.vecScale ⟨p[0]!, p[1]!, p[2]!⟩, r)
+      | "M" :: r => do
+          let (p, r) ← takeRats 9 r
+          some (Xf.matrix ⟨p[0]!, p[1]!, p[2]!, p[3]!, p[4]!, p[5]!, p[6]!, p[7]!, p[8]!⟩, r)
+      | _ => none : Option (Xf Rat × List String))
+    let (xs, r) ← parseXfs3 n r
+    some (x :: xs, r)
+
+open M3d.Tf in
+def parseXfs2 : Nat → List String → Option (List (Xf2 Rat) × List String)
+  | 0, ws => some ([], ws)
+  | n + 1, ws => do
+    let (x, r) ← (match ws with
+      | "T" :: r => do let (p, r) ← takeRats 2 r; some (Xf2.translate ⟨p[0]!, p[1]!⟩, r)
+      | "S" :: r => do let (p, r) ← takeRats 1 r; some (Xf2.scale p[0]!, r)
+      | "V" :: r => do let (p, r) ← takeRats 2 r; some (Xf2.vecScale ⟨p[0]!, p[1]!⟩, r)
+      | "M" :: r => do
+          let (p, r) ← takeRats 4 r
+          some (Xf2.matrix ⟨p[0]!, p[1]!, p[2]!, p[3]!⟩, r)
+      | _ => none : Option (Xf2 Rat × List String))
+    let (xs, r) ← parseXfs2 n r
+    some (x :: xs, r)
+
+/-- labels of the `nx·ny·nz` lattice points, x fastest -/
+def labelArray3 (lab : Nat → Nat → Nat → Bool) (nx ny nz : Nat) : Array Bool :=
+  ((List.range nz).flatMap fun z => (List.range ny).flatMap fun y => (List.range nx).map fun x => lab x y z).toArray
+
+def labelArray2 (lab : Nat → Nat → Bool) (nx ny : Nat) : Array Bool :=
+  ((List.range ny).flatMap fun y => (List.range nx).map fun x => lab x y).toArray
+
+/-- the lattice edges whose ends are labelled differently, as (lower end index, axis) -/
+def signEdges3 (b : Array Bool) (nx ny nz : Nat) : List ((Nat × Nat × Nat) × Nat) :=
+  let lab := fun (x y z : Nat) => b.getD (x + nx * (y + ny * z)) false
+  (List.range nz).flatMap fun z => (List.range ny).flatMap fun y => (List.range nx).flatMap fun x =>
+    (if x + 1 < nx && lab x y z != lab (x+1) y z then [((x, y, z), 0)] else []) ++
+    (if y + 1 < ny && lab x y z != lab x (y+1) z then [((x, y, z), 1)] else []) ++
+    (if z + 1 < nz && lab x y z != lab x y (z+1) then [((x, y, z), 2)] else [])
+
+def signEdges2 (b : Array Bool) (nx ny : Nat) : List ((Nat × Nat) × Nat) :=
+  let lab := fun (x y : Nat) => b.getD (x + nx * y) false
+  (List.range ny).flatMap fun y => (List.range nx).flatMap fun x =>
+    (if x + 1 < nx && lab x y != lab (x+1) y then [((x, y), 0)] else []) ++
+    (if y + 1 < ny && lab x y != lab x (y+1) then [((x, y), 1)] else [])
+
+/-- `MarchingCubesSearch` on the lattice `origin + i·d` with the given labels: one vertex per
+sign-changing lattice edge, refined by the model of `mcSearchPoint` (edge recovered by the model of
+`LookupEdgePoint` from the midpoint).  `none` = the Go code panics ("vertex not on edge"). -/
+def searchVerts3 (C : List Rat → Bool) (origin : List Rat) (d : Rat) (b : Array Bool) (nx ny nz iters : Nat) :
+    Option (List (List Rat)) :=
+  let pt := fun (x y z : Nat) =>
+    [origin.getD 0 0 + (x : Rat) * d, origin.getD 1 0 + (y : Rat) * d, origin.getD 2 0 + (z : Rat) * d]
+  (signEdges3 b nx ny nz).mapM fun e => do
+    let p := e.1
+    let a := pt p.1 p.2.1 p.2.2
+    let m := setAt a e.2 (a.getD e.2 0 + d / 2)
+    let (k, lo, hi) ← Bisect.lookupEdgePoint origin d m
+    let res := Bisect.mcSearchPoint (fun v => C (setAt m k v)) lo hi iters
+    some (setAt m k res.1)
+
+/-- `MarchingSquaresSearch` (`mn` = the solid's `Min()`, which `msSearch` measures from). -/
+def searchVerts2 (C : List Rat → Bool) (mn origin : List Rat) (d : Rat) (b : Array Bool) (nx ny iters : Nat) :
+    Option (List (List Rat)) :=
+  let pt := fun (x y : Nat) => [origin.getD 0 0 + (x : Rat) * d, origin.getD 1 0 + (y : Rat) * d]
+  (signEdges2 b nx ny).mapM fun e => do
+    let p := e.1
+    let a := pt p.1 p.2
+    let m := setAt a e.2 (a.getD e.2 0 + d / 2)
+    if iters == 0 then some m else
+    let (k, lo, hi) ← Bisect.msLookup mn d m
+    let normalPos := C (setAt m k lo)
+    some (setAt m k (Bisect.msSearchPoint (fun v => C (setAt m k v)) lo hi normalPos iters))
+
+open M3d.Tf M3d.MarchingGlue in
+/-- `mcj iters delta lo(3) hi(3) n <transforms> <csg>`: `MarchingCubesConj`.  The lattice is that of
+`TransformSolid(JoinedTransform(xforms), s)` (model: `conjSolid3`, bounds through `applyBounds`, lattice
+through `spacerCount`); every refined vertex is mapped back by `conjBack3` — by `conj_vertex_round_trip`
+the unique point that the joined transform sends to the lattice-space vertex. -/
+def handleMcj (ws : List String) : Option String := do
+  let iters ← (← ws[0]?).toNat?
+  let (o, r) ← takeRats 7 (ws.drop 1)
+  let d := o[0]!
+  let n ← (← r[0]?).toNat?
+  let (ts, r) ← parseXfs3 n (r.drop 1)
+  let (t, _) ← parseCsg r
+  let S : Solid Rat := ⟨⟨o[1]!, o[2]!, o[3]!⟩, ⟨o[4]!, o[5]!, o[6]!⟩, fun c => contains t c.x c.y c.z⟩
+  let TS := conjSolid3 ts S
+  let origin := [TS.lo.x - d, TS.lo.y - d, TS.lo.z - d]
+  let nx := spacerCount TS.lo.x TS.hi.x d
+  let ny := spacerCount TS.lo.y TS.hi.y d
+  let nz := spacerCount TS.lo.z TS.hi.z d
+  let C := fun (c : List Rat) => TS.contains ⟨c.getD 0 0, c.getD 1 0, c.getD 2 0⟩
+  let b := labelArray3 (fun x y z => C [origin.getD 0 0 + (x : Rat) * d, origin.getD 1 0 + (y : Rat) * d,
+    origin.getD 2 0 + (z : Rat) * d]) nx ny nz
+  match searchVerts3 C origin d b nx ny nz iters with
+  | none => some "panic:vertex_not_on_edge"
+  | some vs =>
+    let out := sortStrs <| vs.map fun v =>
+      let w := conjBack3 ts ⟨v.getD 0 0, v.getD 1 0, v.getD 2 0⟩
+      show3 [w.x, w.y, w.z]
+    some s!"n={out.length} side=1 near=1 {";".intercalate out}"
+
+open M3d.Tf M3d.MarchingGlue in
+/-- `msj iters delta lo(2) hi(2) n <transforms> <csg>`: `MarchingSquaresConj`. -/
+def handleMsj (ws : List String) : Option String := do
+  let iters ← (← ws[0]?).toNat?
+  let (o, r) ← takeRats 5 (ws.drop 1)
+  let d := o[0]!
+  let n ← (← r[0]?).toNat?
+  let (ts, r) ← parseXfs2 n (r.drop 1)
+  let (t, _) ← parseCsg r
+  let S : Solid2 Rat := ⟨⟨o[1]!, o[2]!⟩, ⟨o[3]!, o[4]!⟩, fun c => contains t c.x c.y 0⟩
+  let TS := conjSolid2 ts S
+  let origin := [TS.lo.x - d, TS.lo.y - d]
+  let nx := spacerCount TS.lo.x TS.hi.x d
+  let ny := spacerCount TS.lo.y TS.hi.y d
+  let C := fun (c : List Rat) => TS.contains ⟨c.getD 0 0, c.getD 1 0⟩
+  let b := labelArray2 (fun x y => C [origin.getD 0 0 + (x : Rat) * d, origin.getD 1 0 + (y : Rat) * d]) nx ny
+  match searchVerts2 C [TS.lo.x, TS.lo.y] origin d b nx ny iters with
+  | none => some "panic:vertex_not_on_edge"
+  | some vs =>
+    let out := sortStrs <| vs.map fun v =>
+      let w := conjBack2 ts ⟨v.getD 0 0, v.getD 1 0⟩
+      show3 [w.x, w.y]
+    some s!"n={out.length} side=1 near=1 {";".intercalate out}"
+
+open M3d.MarchingGlue in
+/-- `c2f2 iters minx miny maxx maxy small big extra NX NY bits <csg>`: `MarchingSquaresC2F`.  The driver
+builds the model's coarse mesh (vertices `W`), re-evaluates the hypothesis of `c2f_ms_filter_sound` — every
+fine lattice point from which an edge with differently labelled ends starts has a vertex of `W` within
+`extra + big` (max-norm) — and then answers what the property demands: the plain fine mesh of
+`MarchingSquaresSearch` (one refined vertex per sign-changing fine lattice edge). -/
+def handleC2f2 (ws : List String) : Option String := do
+  let iters ← (← ws[0]?).toNat?
+  let (o, r) ← takeRats 7 (ws.drop 1)
+  let nx ← (← r[0]?).toNat?; let ny ← (← r[1]?).toNat?
+  let b := bitsOf (← r[2]?)
+  let (t, _) ← parseCsg (r.drop 3)
+  let small := o[4]!; let big := o[5]!; let extra := o[6]!
+  if b.size ≠ nx * ny then none
+  if nx ≠ spacerCount o[0]! o[2]! small || ny ≠ spacerCount o[1]! o[3]! small then some "spacer-differs-from-model" else
+  let mn := [o[0]!, o[1]!]
+  let C := fun (c : List Rat) => contains t (c.getD 0 0) (c.getD 1 0) 0
+  let cnx := spacerCount o[0]! o[2]! big
+  let cny := spacerCount o[1]! o[3]! big
+  let corigin := [o[0]! - big, o[1]! - big]
+  let cb := labelArray2 (fun x y => C [corigin.getD 0 0 + (x : Rat) * big, corigin.getD 1 0 + (y : Rat) * big]) cnx cny
+  match searchVerts2 C mn corigin big cb cnx cny iters with
+  | none => some "panic:vertex_not_on_edge"
+  | some W =>
+    let Wp := W.map fun w => (w.getD 0 0, w.getD 1 0)
+    let origin := [o[0]! - small, o[1]! - small]
+    let starts := dedupPairs ((signEdges2 b nx ny).map (·.1))
+    let seen := starts.all fun p =>
+      nearVertex2 Wp (extra + big) (origin.getD 0 0 + (p.1 : Rat) * small) (origin.getD 1 0 + (p.2 : Rat) * small)
+    if !seen then some "hypothesis-not-met:a-feature-is-further-than-extraSpace+bigDelta-from-the-coarse-mesh" else
+    match searchVerts2 C mn origin small b nx ny iters with
+    | none => some "panic:vertex_not_on_edge"
+    | some vs =>
+      let out := sortStrs (vs.map show3)
+      some s!"n={out.length} side=1 near=1 {";".intercalate out}"
+
+open M3d.MarchingGlue in
+/-- `c2f3 iters min(3) max(3) small big extra NX NY NZ bits <csg>`: `MarchingCubesC2F`. -/
+def handleC2f3 (ws : List String) : Option String := do
+  let iters ← (← ws[0]?).toNat?
+  let (o, r) ← takeRats 9 (ws.drop 1)
+  let nx ← (← r[0]?).toNat?; let ny ← (← r[1]?).toNat?; let nz ← (← r[2]?).toNat?
+  let b := bitsOf (← r[3]?)
+  let (t, _) ← parseCsg (r.drop 4)
+  let small := o[6]!; let big := o[7]!; let extra := o[8]!
+  if b.size ≠ nx * ny * nz then none
+  if nx ≠ spacerCount o[0]! o[3]! small || ny ≠ spacerCount o[1]! o[4]! small || nz ≠ spacerCount o[2]! o[5]! small then
+    some "spacer-differs-from-model" else
+  let C := fun (c : List Rat) => contains t (c.getD 0 0) (c.getD 1 0) (c.getD 2 0)
+  let cnx := spacerCount o[0]! o[3]! big
+  let cny := spacerCount o[1]! o[4]! big
+  let cnz := spacerCount o[2]! o[5]! big
+  let corigin := [o[0]! - big, o[1]! - big, o[2]! - big]
+  let cb := labelArray3 (fun x y z => C [corigin.getD 0 0 + (x : Rat) * big, corigin.getD 1 0 + (y : Rat) * big,
+    corigin.getD 2 0 + (z : Rat) * big]) cnx cny cnz
+  match searchVerts3 C corigin big cb cnx cny cnz iters with
+  | none => some "panic:vertex_not_on_edge"
+  | some W =>
+    let Wp := W.map fun w => (w.getD 0 0, w.getD 1 0, w.getD 2 0)
+    let origin := [o[0]! - small, o[1]! - small, o[2]! - small]
+    let starts := dedupTriples ((signEdges3 b nx ny nz).map (·.1))
+    let seen := starts.all fun p =>
+      nearVertex3 Wp (extra + big) (origin.getD 0 0 + (p.1 : Rat) * small) (origin.getD 1 0 + (p.2.1 : Rat) * small)
+        (origin.getD 2 0 + (p.2.2 : Rat) * small)
+    if !seen then some "hypothesis-not-met:a-feature-is-further-than-extraSpace+bigDelta-from-the-coarse-mesh" else
+    match searchVerts3 C origin small b nx ny nz iters with
+    | none => some "panic:vertex_not_on_edge"
+    | some vs =>
+      let out := sortStrs (vs.map show3)
+      some s!"n={out.length} side=1 near=1 {";".intercalate out}"
+
 def handleAll (ws : List String) : Option String :=
   match ws with
   | "mcv" :: rest => handleMcv false rest
@@ -278,10 +519,15 @@ def handleAll (ws : List String) : Option String :=
   | "mcs" :: rest => handleMcs rest
   | "mss" :: rest => handleMss rest
   | "bis" :: rest => handleBis rest
+  | "bis2" :: rest => handleBis2 rest
   | "dcidx" :: rest => handleDcIdx rest
   | "dcsz" :: rest => handleDcSz rest
   | "dc" :: rest => handleDc false rest
   | "dcr" :: rest => handleDc true rest
+  | "mcj" :: rest => handleMcj rest
+  | "msj" :: rest => handleMsj rest
+  | "c2f2" :: rest => handleC2f2 rest
+  | "c2f3" :: rest => handleC2f3 rest
   | _ => none
 
 end M3d.Drv.C02
